@@ -1,8 +1,9 @@
 #!/usr/bin/env python3
-"""tools/keep_seeded.py <Cxx> <name> <caught_by comma list> <notes>  : copies a confirmed seeded change from /tmp/mut/Cxx to seeded/<name>/"""
+"""tools/keep_seeded.py <dir under /tmp/mut, e.g. C08a> <name> <caught_by comma list> <notes>  : copies a confirmed seeded change from /tmp/mut/<dir> to seeded/<name>/ (property id = first three characters of <dir>)"""
 import json, os, shutil, sys, glob
-pid, name, caught, notes = sys.argv[1], sys.argv[2], sys.argv[3], sys.argv[4]
-src = "/tmp/mut/%s" % pid
+d, name, caught, notes = sys.argv[1], sys.argv[2], sys.argv[3], sys.argv[4]
+pid = d[:3]
+src = "/tmp/mut/%s" % d
 dst = os.path.join(os.path.dirname(os.path.dirname(os.path.abspath(__file__))), "seeded", name)
 os.makedirs(dst, exist_ok=True)
 shutil.copy(os.path.join(src, "patch.diff"), dst)
